@@ -149,6 +149,7 @@ func stakingAlphabet() []Choice {
 		evB("award(k3,100)", chain.Event{Kind: "award", Who: 3, Amount: 100}),
 		evB("award(k2,7)", chain.Event{Kind: "award", Who: 2, Amount: 7}),
 		evB("award(k0 validator,9)", chain.Event{Kind: "award", Who: 0, Amount: 9}),
+		txB("change(StakeMinimum=3min)", chain.TxSpec{Msg: "change_param", From: 4, Key: "pos/StakeMinimum", Val: mj(int64(3 * min))}),
 		{Label: "prop=k1", Block: chain.Block{Proposer: 2}},
 	}
 }
@@ -256,6 +257,8 @@ func rewardAlphabet() []Choice {
 		evB("award(k3,0)", chain.Event{Kind: "award", Who: 3, Amount: 0}),
 		txB("send(k3->pos module account,1000)", chain.TxSpec{Msg: "send_module", From: 3, Key: "pos", Amount: 1000}),
 		txB("send(k3->fee collector,1000)", chain.TxSpec{Msg: "send_module", From: 3, Key: "fee_collector", Amount: 1000}),
+		// two awards to one address whose sum passes 2^63
+		multiB("[award(k3,2^63-1),award(k3,1)]", chain.Event{Kind: "award", Who: 3, Amount: 1<<63 - 1}, chain.Event{Kind: "award", Who: 3, Amount: 1}),
 		// awards queued in the block whose EndBlock completes the recipient's unstaking
 		Choice{Label: "dt=3s + award(k0,8)", Block: chain.Block{DT: 3 * time.Second, Events: []chain.Event{{Kind: "award", Who: 0, Amount: 8}}}},
 		Choice{Label: "dt=3s + [award(k0,8),award(k3,5)]", Block: chain.Block{DT: 3 * time.Second, Events: []chain.Event{{Kind: "award", Who: 0, Amount: 8}, {Kind: "award", Who: 3, Amount: 5}}}},
@@ -439,6 +442,15 @@ func fromStates(scs []Scenario, cfg chain.Config, alphabet []Choice, k, d int, n
 	return scs
 }
 
+// cfgUnstake0: UnstakingTime = 0 (a validator that begins unstaking matures in the same block).
+func cfgUnstake0() chain.Config {
+	c := baseCfg()
+	p := *c.Pos
+	p.UnstakingTime = 0
+	c.Pos = &p
+	return c
+}
+
 // bigStake: the base configuration with k0 staking 100·min, so that slashes leave it staked.
 func bigStake() chain.Config {
 	c := baseCfg()
@@ -470,7 +482,7 @@ func posScenarios(id, tier string) []Scenario {
 	case "C05":
 		k, d := kd(2, 4, 3, 4)
 		k2, d2 := kd(2, 3, 3, 3)
-		return fromStates(fromStates([]Scenario{
+		return append(fromStates(fromStates([]Scenario{
 			{Name: "2val", Cfg: baseCfg(), Alphabet: richAlphabet(), K: k2, D: d2, Tail: 1},
 			{Name: "3val-equal-max2", Cfg: cfg3equal(), Alphabet: setAlphabet(), K: k, D: d, Tail: 1},
 			{Name: "4val-ordered-max3", Cfg: cfg4ordered(), Alphabet: setAlphabet(), K: k, D: d, Tail: 1},
@@ -478,15 +490,17 @@ func posScenarios(id, tier string) []Scenario {
 			{Name: "4val-big-powers-max3", Cfg: cfg4big(), Alphabet: setAlphabetU(64 * min), K: k2, D: d2, Tail: 1},
 			{Name: "3val-minstake3-max2", Cfg: cfgMinStake3(), Alphabet: setAlphabet(), K: k2, D: d2, Tail: 1},
 			{Name: "3val-jail-fast", Cfg: cfgJailFast(), Alphabet: jailFastAlphabet(), K: k2, D: d2, Tail: 1},
-		}, bigStake(), richAlphabet(), k2, d2, "k0-jailed", "k0-unstaking", "k2-joined-k0-jailed"), baseCfg(), stakingAlphabet(), k2, d2, "k0-slashed-half")
+		}, bigStake(), richAlphabet(), k2, d2, "k0-jailed", "k0-unstaking", "k2-joined-k0-jailed"), baseCfg(), stakingAlphabet(), k2, d2, "k0-slashed-half"),
+			Scenario{Name: "unstaking-time-0", Cfg: cfgUnstake0(), Alphabet: setAlphabet(), K: 2, D: 3, Tail: 1})
 	case "C06":
 		k, d := kd(3, 4, 4, 4)
 		k2, d2 := kd(2, 4, 3, 3)
-		return fromStates([]Scenario{
+		return append(fromStates([]Scenario{
 			{Name: "lifecycle", Cfg: baseCfg(), Alphabet: lifecycleAlphabet(), K: k, D: d, Tail: 1},
 			{Name: "2val-rich", Cfg: baseCfg(), Alphabet: richAlphabet(), K: k2, D: d2, Tail: 1},
 			{Name: "3val-equal-max2", Cfg: cfg3equal(), Alphabet: setAlphabet(), K: k2, D: d2, Tail: 1},
-		}, bigStake(), lifecycleAlphabet(), k2, d2, "k0-jailed", "k0-unstaking", "k0-tombstoned", "k0-unstaking-jailed", "k2-joined-k0-jailed")
+		}, bigStake(), lifecycleAlphabet(), k2, d2, "k0-jailed", "k0-unstaking", "k0-tombstoned", "k0-unstaking-jailed", "k2-joined-k0-jailed"),
+			Scenario{Name: "unstaking-time-0", Cfg: cfgUnstake0(), Alphabet: lifecycleAlphabet(), K: 2, D: 3, Tail: 1})
 	case "C07":
 		k, d := kd(2, 3, 3, 3)
 		var scs []Scenario
